@@ -685,6 +685,13 @@ func c11BufInit(c *Ctx) {
 	if n < 2 {
 		c.undecided("pipelineRecvAck/init-phase-reads", "fewer reads of the init-phase flag than expected")
 	}
+	// ... and no ack is consumed without looking at the flag at all: from taking an ack to taking the next one, every
+	// path releases the writer, or sees the flag cleared, or leaves (cancel / cancelled context / return)
+	hit, path := reachFromE(next.Block(), instrIndex(next)+1, func(in ssa.Instruction) bool { return in == next }, func(in ssa.Instruction) bool {
+		ci, ok := in.(ssa.CallInstruction)
+		return ok && (calleeID(ci.Common()) == tT+"ackBufInit" || isCancelWithError(in))
+	}, func(from, to *ssa.BasicBlock) bool { return cleared(from, to) || ctxErrEdge(from, to) })
+	c.check(hit == nil, "pipelineRecvAck/every-ack-looks-at-init-phase", c.ipos(next), "between two acks every path releases the waiting writer or observes that the init phase is over", "an ack can be consumed without releasing the writer and without checking whether it is waiting (a pause during size probing hangs the transfer)", c.pathStr(path)...)
 }
 
 // c11LoopProgress (contradiction): a loop whose only exit test compares values that cannot change inside the loop
